@@ -55,6 +55,7 @@ impl<'a, W: AsyncWrite + Unpin> QueryCommandHandler<'a, W> {
             limit,
             offset,
             where_clause,
+            event_sequence,
             ..
         } = self.command
         else {
@@ -75,20 +76,27 @@ impl<'a, W: AsyncWrite + Unpin> QueryCommandHandler<'a, W> {
         // Skip permission check if user_id is "bypass" (bypass_auth mode)
         if let Some(auth_mgr) = self.auth_manager {
             if let Some(uid) = self.user_id {
-                // Skip permission checks for bypass user
-                if uid != BYPASS_USER_ID && !auth_mgr.can_read(uid, event_type).await {
-                    warn!(
-                        target: "sneldb::query",
-                        user_id = uid,
-                        event_type,
-                        "Read permission denied"
-                    );
-                    return self
-                        .write_error(
-                            StatusCode::Forbidden,
-                            &format!("Read permission denied for event type '{}'", event_type),
-                        )
-                        .await;
+                // A sequence query reads every event type it links, not only the head
+                let mut event_types = vec![event_type];
+                if let Some(sequence) = event_sequence {
+                    event_types.extend(sequence.links.iter().map(|(_, target)| &target.event));
+                }
+                for event_type in event_types {
+                    // Skip permission checks for bypass user
+                    if uid != BYPASS_USER_ID && !auth_mgr.can_read(uid, event_type).await {
+                        warn!(
+                            target: "sneldb::query",
+                            user_id = uid,
+                            event_type,
+                            "Read permission denied"
+                        );
+                        return self
+                            .write_error(
+                                StatusCode::Forbidden,
+                                &format!("Read permission denied for event type '{}'", event_type),
+                            )
+                            .await;
+                    }
                 }
             } else {
                 // Authentication required but no user_id provided
